@@ -62,7 +62,8 @@ def plan_st(draw, tier):
             queries.append(["zero", -1, [0] * h.d])
         else:
             queries.append(["random", -1, draw(st.lists(st.integers(-4, 4), min_size=h.d, max_size=h.d))])
-    return {"config": cfg, "ops": h.ops, "queries": queries}
+    early = [i for i in range(len(h.ops) - 1) if draw(st.booleans())]
+    return {"config": cfg, "ops": h.ops, "queries": queries, "query_after": early}
 
 
 def strategy(tier, ctx):
@@ -101,6 +102,13 @@ def evaluate(plan, ctx):
         rew += op[2]
         cx += op[3]
         origin += [i] * len(op[1])
+        if i in plan.get("query_after", []):
+            # an early query (its value is checked by the final pass on the complete history; here it only has to
+            # succeed) - a cache it fills must not hide rows hashed later
+            for _, _, q0 in plan["queries"][:2]:
+                oq = ops.apply_op(mab, ["predict_expectations", [q0]])
+                if ops.is_exc(oq):
+                    raise Violation("unexpected_exception", "early query raised %s" % ops.short(oq))
         planes = {t: np.array(p, dtype=float) for t, p in mab._imp.table_to_plane.items()}
         if planes0 is None:
             planes0 = planes
